@@ -27,7 +27,6 @@ theorem xmembers_rej (lc : Libc) (hl : LibcSpec lc) (ms : List (Gap × Quote × 
     simp only [xmembersErase, membersKNF, Bool.and_eq_true, Bool.not_eq_true'] at hknf
     simp only [xmembersErase, membersNest] at hdepth
     have ihd : XRej lc d := ih (g1, q, k, g2, g3, d, g4) (by simp)
-    have hkok : ∀ i ∈ k, i.ok = true := itemsOkFor_ok q k hkq
     have hkey : cstr (decodeItems k) = decodeItems k := cstr_of_nulfree _ hknf.1.1
     have hgp : GapPos sv rest := by
       rcases hsv with h | h <;> subst h
@@ -52,6 +51,12 @@ theorem xmembers_rej (lc : Libc) (hl : LibcSpec lc) (ms : List (Gap × Quote × 
       cases q with
       | sq => exact sq_name_err lc t l hv hst sv hsv (.obj kvs) nm rest hs _ _ _
       | dq =>
+       cases hkall : k.all StrItem.ok with
+       | false =>
+        -- a raw control character in the member name
+        exact strict_ctl_name_err lc t l hwf hv hhs hst sv hsv (.obj kvs) nm rest hs k hkq hkall _ _ _
+       | true =>
+        have hkok : ∀ i ∈ k, i.ok = true := fun i hi => (List.all_eq_true.mp hkall) i hi
         obtain ⟨tn, hsn, fn, hrn⟩ := reaches_name lc t l sv hsv (.obj kvs) nm rest hs hv hhs k hkok
         have eq : qText .dq k = strText k := rfl
         rw [eq, hrn, hkey] at *
@@ -82,7 +87,7 @@ theorem xmembers_rej (lc : Libc) (hl : LibcSpec lc) (ms : List (Gap × Quote × 
             have hrestnp : (xmembersPlain r && tr.isNone) = false := by
               simp only [xmembersPlain] at hnp
               simp only [Bool.and_eq_true] at htri
-              simpa [h1, h2, htri.1.1, htri.1.2, htri.2] using hnp
+              simpa [h1, h2, hkall, htri.1.1, htri.1.2, htri.2] using hnp
             rw [e3, ed, e4]
             cases r with
             | nil =>
